@@ -103,8 +103,9 @@ pub fn execute(trace: &Trace, stats: &mut Stats) -> RunReport {
                     stats.digest = crate::prng::mix(&[stats.digest, st.digest]);
                     rep
                 }
+                // a panic of the simulator's own code is a harness error (exit 2), not a finding
                 Err(why) => RunReport {
-                    violations: vec![Violation { property: l.prop.clone(), signature: format!("{}/run-process-died", l.prop), detail: why }],
+                    violations: vec![Violation { property: l.prop.clone(), signature: if why.starts_with("harness panic") { format!("{}/harness-error", l.prop) } else { format!("{}/run-process-died", l.prop) }, detail: why }],
                     nontrivial: true,
                     proc_cases: vec![],
                 },
